@@ -1,11 +1,56 @@
 (** Property C08 — fragments and complete strings round-trip through the writer.
-    (statements are added below as they are proved) *)
+    Only statements, each closed by [exact]; proofs in Write/FormatBondingSpec.v.  All theorems are about
+    [format_bonding] as GENERATED from write_cgsmiles.py (Gen/WriterGen.v) on every run.
+    The full statement "format_bonding writes every descriptor of a list with its own order symbol" is NOT
+    provable for the current code ([C08_format_bonding_refuted]); proved instead: the exact function the code
+    computes ([C08_format_bonding_spec]), its agreement with the expected writing when only the first
+    descriptor is non-single ([C08_format_bonding_first_only_partial]), the universal form of the defect
+    ([C08_format_bonding_drops_prefix]).  The fragment-set and whole-string round trips are NOT proved:
+    they are decided per run on the implementation's outputs (Write/FragCheck.v) with the writer model
+    (Write/WriteImpl.v) tied to the code by the correspondence check. *)
 From Coq Require Import String.
 From Coq Require Import List Ascii ZArith Bool.
-From CGV Require Import Base.PyBase Base.PyVal Base.NxGraph Gen.WriterGen Write.WriteImpl Write.FragDefs Write.FragCheck.
+From CGV Require Import Base.PyBase Base.PyVal Base.NxGraph Gen.WriterGen Write.WriteImpl Write.FragDefs Write.FragCheck
+     Write.FormatBondingSpec.
 Import ListNotations.
 Open Scope Z_scope.
 
-Example C08_model_runs : format_bonding [S "$a1"; S "$b2"] = Ok (S "=[$b]").
-Proof. vm_compute. reflexivity. Qed.
-Print Assumptions C08_model_runs.
+(** what the generated function computes on every descriptor list with orders 0..4 *)
+Theorem C08_format_bonding_spec : forall L : list (pystr * nat),
+  Forall (fun klo => (snd klo <= 4)%nat) L ->
+  format_bonding (map (fun klo => mk_descr (fst klo) (snd klo)) L) = Ok (fb_spec L).
+Proof. exact format_bonding_spec. Qed.
+(** exact output for lists of order-1 descriptors *)
+Theorem C08_format_bonding_order1 : forall kls : list pystr,
+  format_bonding (map (fun kl => mk_descr kl 1) kls) = Ok (concat (map wrap kls)).
+Proof. exact format_bonding_order1. Qed.
+(** one descriptor of any order 0..4 is written sym[kind label] *)
+Theorem C08_format_bonding_single : forall kl o, (o <= 4)%nat ->
+  format_bonding [mk_descr kl o] = Ok (symtext o ++ wrap kl).
+Proof. exact format_bonding_single. Qed.
+(** PARTIAL: correct (= the expected writing of Appendix A) when only the first descriptor is non-single;
+    missing for the full statement: lists with a non-single descriptor after the first (refuted below) *)
+Theorem C08_format_bonding_first_only_partial : forall kl o rest, (o <= 4)%nat ->
+  Forall (fun klo => snd klo = 1%nat) rest ->
+  format_bonding (map (fun klo => mk_descr (fst klo) (snd klo)) ((kl, o) :: rest)) = Ok (fb_expected ((kl, o) :: rest)).
+Proof. exact format_bonding_first_only_partial. Qed.
+(** the defect, universally: everything before a non-single descriptor is dropped *)
+Theorem C08_format_bonding_drops_prefix : forall L1 kl o L2, o <> 1%nat ->
+  fb_spec (L1 ++ (kl, o) :: L2) = fb_spec ((kl, o) :: L2).
+Proof. exact format_bonding_drops_prefix. Qed.
+Theorem C08_format_bonding_refuted : exists L : list (pystr * nat),
+  Forall (fun klo => (1 <= snd klo <= 3)%nat) L /\
+  exists out, format_bonding (map (fun klo => mk_descr (fst klo) (snd klo)) L) = Ok out /\ out <> fb_expected L
+              /\ out = S "=[$b]".
+Proof. exact format_bonding_refuted. Qed.
+Example C08_nonvacuous :
+  format_bonding [S "$a1"; S "$b2"] = Ok (S "=[$b]") /\ format_bonding [S "$2"; S ">x1"] = Ok (S "=[$][>x]")
+  /\ format_bonding [S "$0"] = Ok (S ".[$]") /\ format_bonding [S "$"] = Err EValue /\ format_bonding [S "$7"] = Err EKey.
+Proof. exact format_bonding_examples. Qed.
+
+Print Assumptions C08_format_bonding_spec.
+Print Assumptions C08_format_bonding_order1.
+Print Assumptions C08_format_bonding_single.
+Print Assumptions C08_format_bonding_first_only_partial.
+Print Assumptions C08_format_bonding_drops_prefix.
+Print Assumptions C08_format_bonding_refuted.
